@@ -651,7 +651,9 @@ def closest_point(triangles, points):
 
     # check if P in edge region of AB, if so return projection of P onto A
     vc = (d1 * d4) - (d3 * d2)
-    is_ab = (vc <= 0.0) & (d1 > -tol.zero) & (d3 < tol.zero) & remain
+    is_ab = (
+        (vc <= 0.0) & (d1 > -tol.zero) & (d3 < tol.zero) & ((d1 - d3) > 0.0) & remain
+    )
     if any(is_ab):
         v = (d1[is_ab] / (d1[is_ab] - d3[is_ab])).reshape((-1, 1))
         result[is_ab] = a[is_ab] + (v * ab[is_ab])
@@ -668,7 +670,9 @@ def closest_point(triangles, points):
 
     # check if P in edge region of AC, if so return projection of P onto AC
     vb = (d5 * d2) - (d1 * d6)
-    is_ac = (vb <= 0.0) & (d2 > -tol.zero) & (d6 < tol.zero) & remain
+    is_ac = (
+        (vb <= 0.0) & (d2 > -tol.zero) & (d6 < tol.zero) & ((d2 - d6) > 0.0) & remain
+    )
     if any(is_ac):
         w = (d2[is_ac] / (d2[is_ac] - d6[is_ac])).reshape((-1, 1))
         result[is_ac] = a[is_ac] + w * ac[is_ac]
@@ -676,7 +680,13 @@ def closest_point(triangles, points):
 
     # check if P in edge region of BC, if so return projection of P onto BC
     va = (d3 * d6) - (d5 * d4)
-    is_bc = (va <= 0.0) & ((d4 - d3) > -tol.zero) & ((d5 - d6) > -tol.zero) & remain
+    is_bc = (
+        (va <= 0.0)
+        & ((d4 - d3) > -tol.zero)
+        & ((d5 - d6) > -tol.zero)
+        & (((d4 - d3) + (d5 - d6)) > 0.0)
+        & remain
+    )
     if any(is_bc):
         d43 = d4[is_bc] - d3[is_bc]
         w = (d43 / (d43 + (d5[is_bc] - d6[is_bc]))).reshape((-1, 1))
